@@ -53,6 +53,18 @@ def run(chk):
         for prob_ in C.batch_contract(sh_.is_inside, B_, "b"):
             chk.violation("batch-contract", dict(cls=cls_, what=prob_)); break
         chk.count("batch-contract")
+        # ... of any length: long batches (1500, 2049, 5000 points: repetitions of the six, so the answers are known) element by element
+        small_ = np.asarray(sh_.is_inside(B_), bool)
+        for n_ in (1500, 2049, 5000):
+            big_ = np.tile(B_, (n_ // len(B_) + 1, 1))[:n_]
+            st_, got_ = C.excname(lambda: np.asarray(sh_.is_inside(big_), bool))
+            want_ = np.tile(small_, n_ // len(B_) + 1)[:n_]
+            if st_ != "ok" or got_.shape != (n_,) or not np.array_equal(got_, want_):
+                bad_ = None if st_ != "ok" or got_.shape != (n_,) else int(np.flatnonzero(got_ != want_)[0])
+                chk.violation("long-batch-vs-short", dict(cls=cls_, n=n_, error=st_, first_differing_index=bad_,
+                                                          what="a batch of %d points (the six probe points repeated) does not repeat their answers" % n_))
+                break
+            chk.count("long-batch")
     npoly = 40 if chk.tier == "quick" else 600
     npts = 90 if chk.tier == "quick" else 300
     chk.notes["rule"] = ("simple polygons (C04 generator) x orientation x embedding (xy-plane exact frame / exact 3-D similarity / (N,2) input) "
